@@ -91,6 +91,33 @@ def consistently_oriented(f):
     return all((b, a) in seen for (a, b) in seen)
 
 
+def oracle_surfaces_cross(vA, fA, vB, fB):
+    """independent oracle: does an edge of one triangulated surface pass through the interior of a triangle of the other?"""
+
+    def seg_tri(p, q, a, b, c):
+        d, e1, e2 = q - p, b - a, c - a
+        h = np.cross(d, e2)
+        det = e1 @ h
+        if abs(det) < 1e-14:
+            return False
+        s_ = p - a
+        u = (s_ @ h) / det
+        if u < 0 or u > 1:
+            return False
+        qq = np.cross(s_, e1)
+        w = (d @ qq) / det
+        if w < 0 or u + w > 1:
+            return False
+        return 0 < (e2 @ qq) / det < 1
+
+    for (v1, f1, v2, f2) in ((vA, fA, vB, fB), (vB, fB, vA, fA)):
+        for tri in f1:
+            for i, j in ((0, 1), (1, 2), (2, 0)):
+                if any(seg_tri(v1[tri[i]], v1[tri[j]], *v2[t2]) for t2 in f2):
+                    return True
+    return False
+
+
 def run_all(seed, tier):
     import warnings
 
@@ -168,7 +195,12 @@ def run_all(seed, tier):
         # interpenetrating: two overlapping copies
         distinct += 1
         ext = v.max(axis=0) - v.min(axis=0)
-        vi = np.concatenate([v, v + 0.37 * ext])
+        # a thin solid shifted along its bounding-box diagonal need not meet its copy: take the first shift for which the
+        # independent edge-through-triangle oracle confirms that the two surfaces cross
+        shift_f = next((sf_ for sf_ in (0.37, 0.23, 0.11, 0.05) if oracle_surfaces_cross(v, f, v + sf_ * ext, f)), None)
+        if shift_f is None:
+            continue
+        vi = np.concatenate([v, v + shift_f * ext])
         fi = np.concatenate([f, f + len(v)])
         n += 1
         m = magpy.magnet.TriangularMesh(vertices=vi, faces=fi, polarization=(0, 0, 1), check_open="skip", check_disconnected="skip", check_selfintersecting="skip", reorient_faces=False)
@@ -308,7 +340,7 @@ def main(tier, seed):
         else:
             bad2.append((c, m_))
     rep.standin("status checks vs graph oracles; outward orientation after reorientation; field invariant under face permutation / flips / vertex renumbering",
-                "5 solids (box, prism, tetrahedron, L-shape, random hull) x 6 variants (thorough: 40) + open / disconnected / interpenetrating derivatives", n, d,
+                "5 solids (box, prism, tetrahedron, L-shape, random hull) x 6 variants (thorough: 40) + open / disconnected / interpenetrating derivatives + sparse vertex numbering (arithmetic-progression and random labels, 2 / 10 per solid) + large box pierced by a small fine body (4 / 10 placements + 1 clean)", n, d,
                 "random permutations, flip subsets (40% of faces), cyclic rotations, vertex renumberings; distinct = meshes", [dict(solid="L-shape", variant=3, flipped=6)],
                 failures=len(bad2))
     for f in sfails:
